@@ -313,6 +313,7 @@ EXPORT wchar_t *_wcstok_s_chk(wchar_t *restrict dest, rsize_t *restrict dmaxp,
      * need to continue the scan.
      */
     if (ptoken == NULL) {
+        *ptr = dest; /* the terminator: later calls find nothing */
         *dmaxp = dlen;
         return (ptoken);
     }
@@ -367,6 +368,7 @@ EXPORT wchar_t *_wcstok_s_chk(wchar_t *restrict dest, rsize_t *restrict dmaxp,
         dlen--;
     }
 
+    *ptr = dest; /* the terminator: later calls find nothing */
     *dmaxp = dlen;
     return (ptoken);
 }
